@@ -205,6 +205,29 @@ theorem rotate_neg_feature_partial (s : Gts.Seq) (n : Int) (hL : 0 < s.len) (f :
   rw [e, mapPos_rotMap_mul 0 s.len hL _ hin] at d
   exact ⟨f2, m, hk, hp, d, fun nd => d.eq_of_nodup nd⟩
 
+/-! ### the same laws for the full-length feature (`source 1..L`), which `normOk` excludes above -/
+
+/-- **composition laws for the full-length feature**: a feature whose location is the whole-sequence
+range (either strand, any markers; `C04.fullLength`) is, UNCHANGED, a feature of `rotate (rotate s a) b`
+and of `rotate s (a + b)` (additivity), of `rotate s (k·L)` (identity) and of `rotate (rotate s n) (-n)`
+(inverse), for all integers `a`, `b`, `k`, `n`.  No guard.  (Immediate from `rotate_full_length_feature`:
+the feature is a fixed point of every rotation.) -/
+theorem rotate_full_length_feature_laws (s : Gts.Seq) (a b k n : Int) (hL : 0 < s.len) (f : Feature)
+    (hf : f ∈ s.feats) (hfl : fullLength s.len f.loc = true) :
+    f ∈ ((s.rotate a).rotate b).feats ∧ f ∈ (s.rotate (a + b)).feats ∧
+    f ∈ (s.rotate (k * s.len)).feats ∧ f ∈ ((s.rotate n).rotate (-n)).feats := by
+  have two : ∀ x y : Int, f ∈ ((s.rotate x).rotate y).feats := fun x y =>
+    rotate_full_length_feature (s.rotate x) y (by rw [Seq.rotate_len]; exact hL) f
+      (rotate_full_length_feature s x hL f hf hfl) (by rw [Seq.rotate_len]; exact hfl)
+  exact ⟨two a b, rotate_full_length_feature s (a + b) hL f hf hfl,
+    rotate_full_length_feature s (k * s.len) hL f hf hfl, two n (-n)⟩
+
+/-- non-vacuity: the `source` feature of a ten-residue record -/
+example :
+    let s : Gts.Seq := ⟨[⟨"source", ranged 0 10 false false, []⟩], [65, 67, 71, 84, 65, 67, 71, 84, 65, 67]⟩
+    0 < s.len ∧ fullLength s.len (ranged 0 10 false false) = true ∧
+    normOk s.len (expand (ranged 0 10 false false) 0 (rotN 3 s.len)) = false := by decide
+
 /-! ### non-vacuity, and where the laws stop -/
 
 /-- non-vacuity of the four feature theorems: a ten-residue record with a complement-strand join carrying
